@@ -245,6 +245,9 @@ def run(repo, rep, tier):
     from . import c15 as _c15
     L.borrow(repo, rep, "R02.5", "C15", _c15._coverage,
              ("unhashed:mode",), minimum=1)
+    # a node's settings (its default marker, its escape set) reach the
+    # engine that compiles its expression
+    L.engine_fields_rule(repo, rep, "R02.2")
     L.state_rule(repo, rep)
 
 
